@@ -18,10 +18,10 @@ MANIFEST = {
 
 INVARIANTS = ["C04_Tally"]
 PROPERTIES = ["C04_Lifecycle"]
-QUICK = ['chain2', 'alw', 'retry_s']
-THOROUGH = ['chain2', 'alw', 'retry_s', 'nest_s', 'diamond', 'jpim_s', 'upd2', 'grp2', 'jpim', 'retry']
+QUICK = ['chain2', 'alw', 'retry_s', 'upd3']
+THOROUGH = ['chain2', 'alw', 'retry_s', 'nest_s', 'diamond', 'jpim_s', 'upd2', 'grp2', 'jpim', 'retry', 'upd3']
 FINDINGS = [("uncchild", "upd2", ["C04_Tally"])]
 
 
 def run(ctx):
-    B.run_property(ctx, "C04", INVARIANTS, PROPERTIES, QUICK, THOROUGH, FINDINGS)
+    B.run_property(ctx, "C04", INVARIANTS, PROPERTIES, QUICK, THOROUGH, FINDINGS, overlap=['chain2', 'retry_s'])
